@@ -6,14 +6,19 @@ Pipeline (spec/Paths.tla is the oracle, spec/PathsTrace.tla the trace monitor):
      directories), of the two privacy flags and of changes of the working directory (Chdir; LoseWd:
      the directory is removed underneath the process, os.Getwd fails from then on) within
      the bounds, checks the property invariants over ALL input paths of the scenario (absolute and
-     relative) in every reachable state, and dumps the labelled state graph;
+     relative) in every reachable state, and dumps the labelled state graph; the prefix stage of the
+     specification is a FUNCTION (the innermost covering directory is replaced): nested directories -
+     cwd "/" above $HOME from the first state on, $HOME above the start directory, user mappings below
+     $HOME and below each other - have one allowed result "for every iteration order of the table";
+     with Lprivacypathregexp off no regexp rule (registered or hard-wired) is in force;
   2. witness runs: each named deviation of the pinned code must make TLC FAIL an invariant
      (the invariants are not vacuous, the deviations really contradict the property);
   3. an edge cover of every dumped graph (every transition at least once, all inputs queried
      after every transition through Safety, SafetyFiles and call sites with chosen compile-time
      file names in JSON/logfmt/colored records) plus seeded random histories over random
      directories, regexps and byte strings are executed by the Go worker, each query repeated
-     (Go randomises map iteration order) and the distinct results recorded;
+     (Go randomises map iteration order: a library that folds the table in map order shows its other
+     results within a few repetitions) and the distinct results recorded;
   4. TLC validates the recording: every observed result must be in Outputs(state, input, {});
      a result outside it is classified by the spec (known deviation class / unexplained).
 """
@@ -28,18 +33,20 @@ import corelib
 from vlib import Undecided, edge_cover, parse_action, read_ndjson
 from tlagen import tla
 
-INVARIANTS = ["TypeOK", "Total", "NoProtectedPrefix", "ShortFormUsed", "OutsideUnchanged", "OrderOnlyIfNested",
-              "RegexpGated", "LostWdHardened"]
+INVARIANTS = ["TypeOK", "Total", "NoProtectedPrefix", "ShortFormUsed", "InnerDirHidden", "OutsideUnchanged", "OrderIndependent",
+              "OrderOnlyIfNested", "RegexpGated", "LostWdHardened"]
 # deviation -> the invariant TLC must report as violated when only that deviation is enabled
 WITNESS = {"NoBoundary": "OutsideUnchanged", "ReplaceAll": "ShortFormUsed", "RawTable": "NoProtectedPrefix",
-           "StopRel": "NoProtectedPrefix", "StaleWd": "OutsideUnchanged", "LostWdRaw": "NoProtectedPrefix"}
+           "StopRel": "NoProtectedPrefix", "StaleWd": "OutsideUnchanged", "LostWdRaw": "NoProtectedPrefix",
+           "MapOrder": "InnerDirHidden", "HardVol": "OutsideUnchanged"}
 # class printed by the trace spec -> finding key
 KEYS = {"empty-prefix": "empty-home-prefix", "root-prefix": "root-dir-prefix",
         "home-exposed": "home-exposed-after-unregister", "prefix-without-boundary": "prefix-without-boundary",
         "inner-occurrence-rewritten": "inner-occurrence-rewritten", "panic": "panic", "length": "SafetyFiles:length",
         "privacy-flag-off-by-default": "privacy-flag-off-by-default",
         "stale-working-directory": "stale-working-directory", "relative-path-not-hardened": "relative-path-not-hardened",
-        "unhardened-without-working-directory": "unhardened-without-working-directory"}
+        "unhardened-without-working-directory": "unhardened-without-working-directory",
+        "nested-mappings-order": "nested-mappings-order", "hardwired-volumes-rule": "hardwired-volumes-rule"}
 VIAS = ["Safety", "SafetyFiles", "caller-json", "caller-logfmt", "caller-color"]
 
 
@@ -91,7 +98,7 @@ RX_ASSUMES = ["HasCovered", "HasShorterRel", "HasRxMatch"]
 RELWD_ASSUMES = ["HasRelCovered", "HasRelTwin", "HasRelStringPrefix", "HasRelOutside", "HasWdSensitive", "HasShorterRel",
                  "WitnessStopRel", "WitnessStaleWd", "WitnessLostWd"]
 ALL_ASSUMES = ["HasCovered", "HasStringPrefix", "HasInner", "HasNested", "HasShorterRel", "HasRxMatch",
-               "WitnessNoBoundary", "WitnessReplaceAll", "WitnessRawTable", "WitnessIdeal"]
+               "WitnessNoBoundary", "WitnessReplaceAll", "WitnessRawTable", "WitnessIdeal", "WitnessMapOrder", "WitnessHardVol"]
 
 
 def scenarios(ctx):
@@ -128,13 +135,14 @@ def scenarios(ctx):
     small_maps = [("/srv/secret", "$S")] if q else [("/srv/secret", "$S"), ("/srv/sec", "$C"), REL_MAPS[0]]
     # $HOME unset: the library registers the empty string as the home prefix
     res.append(dict(name="nohome", home="", cwd=CWD, testing=True, maps=small_maps, rxs=[VOLRX], inputs=small_inputs,
-                    sites=["secApp", "secX", "other", "cwdIn"], assumes=["HasCovered", "HasStringPrefix"],
+                    sites=["secApp", "secX", "other", "cwdIn", "vol"], assumes=["HasCovered", "HasStringPrefix", "WitnessHardVol"],
                     rand=(6, 8) if q else (60, 16), ascii_only=True, dirs=["/usr", CWD],
                     mcs=[dict(name="tab", acts=tab_acts, maxtab=4 if q else 5, maxrx=1, maps=small_maps, rxs=[VOLRX])]))
     # working directory "/" (daemons, containers) which the process leaves later
     res.append(dict(name="rootcwd", home=HOME, cwd="/", testing=False, maps=small_maps, rxs=[VOLRX], inputs=small_inputs,
                     sites=["secApp", "secX", "other", "cwdIn", "homeA", "homeX"],
-                    assumes=["HasCovered", "HasStringPrefix", "WitnessLostWd"],      # every absolute path lies under the cwd entry "/" here
+                    # every absolute path lies under the cwd entry "/" here - and $HOME is nested in it from the start
+                    assumes=["HasCovered", "HasStringPrefix", "HasNested", "WitnessLostWd", "WitnessMapOrder"],
                     rand=(6, 8) if q else (60, 16), dirs=["/usr", "/", "/etc"],
                     mcs=[dict(name="tab", acts=tab_acts + ["Chdir", "LoseWd"], maxtab=4 if q else 5, maxrx=1, maps=small_maps, rxs=[VOLRX],
                               dirs=["/usr"] if q else ["/usr", "/", "/etc"])]))
@@ -147,7 +155,7 @@ def scenarios(ctx):
     res.append(dict(name="scratch", home=scratch, cwd=os.path.join(scratch, "harness"), testing=True, maps=sm, rxs=[VOLRX],
                     inputs=[real_site, scratch + "/harness/x.go", scratch + "x/y.go", "/opt/other/z.go", scratch + "/z.go",
                             "harness-src/fam_paths.go", "fam_paths.go"],
-                    sites=["real", "other"], assumes=["HasCovered", "HasStringPrefix", "HasNested", "HasWdSensitive", "WitnessLostWd"],
+                    sites=["real", "other"], assumes=["HasCovered", "HasStringPrefix", "HasNested", "HasWdSensitive", "WitnessLostWd", "WitnessMapOrder"],
                     rand=(4, 8) if q else (40, 16), scratch=scratch, dirs=sd,
                     mcs=[dict(name="tab", acts=tab_acts + ["Chdir", "LoseWd"], maxtab=4, maxrx=1, maps=sm, rxs=[VOLRX],
                               dirs=sd[:2] if q else sd)]))
@@ -525,7 +533,7 @@ def run_scenario(ctx, sc, mcs, pool):
                                                   cover_behaviours=len(m["behaviours"])) for m in mcs],
                 random_behaviours=len(behaviours) - n_cover, trace_lines=len(rows),
                 query_lines=sum(1 for r in rows if r["op"] == "Q"),
-                order_dependent_results_allowed=stats["alts"], order_dependent_results_seen=stats["seen"],
+                order_dependent_results_allowed=stats["alts"], order_dependent_results_seen=stats["seen"],      # queries under nested mappings / answered as specified
                 init_fr=rows[0].get("fr"))
     return dict(sc=sc, behaviours=behaviours, rows=rows, bad=bad, stats=stats, calls=calls, info=info)
 
@@ -565,13 +573,15 @@ def run(ctx, replay):
     ctx.nontrivial = len(nontrivial)
     ctx.extra["scenarios"] = infos
     ctx.extra["deviation_observations"] = {KEYS.get(k, k): v for k, v in counts.items() if not k.startswith("_")}
-    # for the queries whose result depends on the iteration order of the table: how many results the
-    # specification allows in total and how many of them the implementation showed
-    ctx.extra["order_coverage"] = dict(allowed=counts.get("_alts", 0), seen=counts.get("_seen", 0))
-    std = [r["info"] for r in results if r["sc"]["name"].startswith("std")]
-    if not ctx.violations and any(2 * i["order_dependent_results_seen"] < i["order_dependent_results_allowed"] or
-                                  not i["order_dependent_results_allowed"] for i in std):
-        raise Undecided("iteration orders are not covered: %s" % ctx.extra["order_coverage"])
+    # the queries of paths that NESTED mappings cover (a fold in map iteration order would have several
+    # results there; the specification allows one): how many were issued - each repeated 32/64 times, the
+    # order of the map being drawn anew by the runtime for every call - and for how many the implementation
+    # showed the allowed result
+    ctx.extra["order_coverage"] = dict(order_sensitive_queries=counts.get("_alts", 0), with_allowed_result=counts.get("_seen", 0))
+    need = [r["info"] for r in results if r["sc"]["name"] in ("std-test", "std-prod", "rootcwd", "scratch")]
+    if not ctx.violations and any(not i["order_dependent_results_allowed"] for i in need):
+        raise Undecided("no query of a path under nested mappings in some scenario: %s" % [
+            (i["scenario"], i["order_dependent_results_allowed"]) for i in need])
     for t in sorted(nontrivial)[:3]:
         ctx.sample(dict(via=t[0], input=t[1].decode("latin-1"), output=t[2].decode("latin-1")))
     ctx.assumptions += [
@@ -580,7 +590,9 @@ def run(ctx, replay):
         "HOME and the working directory at start are set by the check; the process changes its working directory only through the Chdir events of the script, to existing directories without symbolic links (the worker records os.Getwd() after each and the trace specification compares)",
         "LoseWd: the worker changes into a fresh directory of the check's scratch space and removes it; os.Getwd() must fail afterwards (recorded, compared by the trace specification: a platform where it does not is an Undecided run, not a violation)",
         "relative file names reach the library through Safety/SafetyFiles only: the call sites of the worker are compiled without -trimpath, so their compile-time file names are absolute",
-        "map iteration order cannot be forced: every query is repeated (32/64 times) and histories with removals/re-insertions permute slot order; the allowed set is over all orders, so the check is sound either way",
+        "map iteration order cannot be forced: every query is repeated (32/64 times; the runtime draws the start of a map iteration at random for every call) and histories with removals/re-insertions permute slot order; the specification allows ONE hardened string whatever the order, so an order-dependent result is missed only if all repetitions of all queries of a nested path drew the same order",
+        "with nested registered directories the innermost one is the one to be replaced (the only result for which no covering directory is reported, as prefix or by name); the hardened string is not hardened a second time (a short form that makes the result lie under another registered relative directory is outside the model)",
+        "Lprivacypathregexp off means no regexp rule is in force: a path under no prefix mapping is then 'outside all mappings', also one that a registered regexp would match",
         "$HOME is treated as always protected while Lprivacypath is on (literal reading of the statement); exposure after Reset/Remove is reported under its own key",
     ]
     return ctx.finish(rule="per scenario (HOME/cwd/process mode): every transition of the exhaustive TLC graphs over "
